@@ -422,8 +422,11 @@ def gen_valid(rng, idx, tier):
     lmax = 3 if n <= 2 else (3 if big else 2)
     basis = gen_basis(rng, n, lmax=lmax, kmax=4 if n <= 2 else 3, mmax=3 if n <= 2 else 2)
     geo = ["random", "axis", "pyth", "onnuc", "float"][(idx // 4) % 5]
-    cost = sum((s.l + 1) ** 2 * len(s.exps) for s in basis) ** 2
-    npmax = 30 if cost < 400 else (12 if cost < 1500 else 5)
+    # keep the exact model affordable: its time is ~ 1e-4 s x points x sum over shell pairs of
+    # Ka Kb (la+lb+1)^3 (1 + Ma Mb / 2)
+    cost = sum(len(a.exps) * len(b.exps) * (a.l + b.l + 1) ** 3 * (1 + len(a.coeffs[0]) * len(b.coeffs[0]) / 2)
+               for i, a in enumerate(basis) for b in basis[i:])
+    npmax = max(1, int((50000 if tier == "quick" else 120000) / cost))
     npts = rng.choice([1, 2, 3, 5, 8, 13, 21, 30])
     npts = min(npts, npmax)
     nnuc = rng.randint(1, 5)
